@@ -218,6 +218,27 @@ static void op_keythread(const V &a, V &r) {
     cur.sk = keep; delete_gate_bootstrapping_secret_keyset(sk2);
     r.push_back(mism); r.push_back(evals);
 }
+// refhash <spec> seed pre : hash of the outputs of the work items; with pre = 1 the process first generates ANOTHER key set (the
+// 80-bit default, or the 128-bit one if the spec is the 80-bit one) and evaluates every kind of gate under it, so that the key set of
+// the spec is the second one this process and thread ever use.  The two hashes (pre = 0 / 1, separate processes) must be equal.
+static void op_refhash(const V &a, V &r) {
+    const ll *v = a.data() + SPECN; int pre = (int) v[1];
+    if (pre) {
+        uint32_t seed = 4242; tfhe_random_generator_setSeed(&seed, 1);
+        TFheGateBootstrappingParameterSet *p2 = new_default_gate_bootstrapping_parameters(a[0] == 80 ? 128 : 80);
+        TFheGateBootstrappingSecretKeySet *sk2 = new_random_gate_bootstrapping_secret_keyset(p2);
+        LweSample *w = new_gate_bootstrapping_ciphertext_array(4, p2);
+        for (int g = 0; g < 14; g++) { for (int q = 0; q < 3; q++) bootsSymEncrypt(&w[q], (g >> q) & 1, sk2); apply_gate(g, &w[3], &w[0], &w[1], &w[2], 1, &sk2->cloud); }
+        delete_gate_bootstrapping_ciphertext_array(4, w); delete_gate_bootstrapping_secret_keyset(sk2); delete_gate_bootstrapping_parameters(p2);
+    }
+    need_keys(a);
+    const int n = cur.params->in_out_params->n;
+    std::vector<Work> ws; make_work(ws, 16, n, (unsigned) v[0]);
+    for (int i = 0; i < 16; i++) if (i % 4 == 0) ws[i].g = 10 + (i / 4) % 4;      // NOT, COPY, CONSTANT, MUX among them
+    uint64_t h = 0;
+    for (auto &wk : ws) { eval_work(wk, wk.ref, n); h = fnv(wk.ref.data(), 4 * wk.ref.size(), h + 1); }
+    r.push_back((ll) (h >> 1));
+}
 // history <spec> seed : the same evaluations after different histories on the same thread
 static void op_history(const V &a, V &r) {
     need_keys(a);
@@ -322,6 +343,7 @@ int main() {
         else if (op == "frame") op_frame(a, r);
         else if (op == "threads") op_threads(a, r);
         else if (op == "keythread") op_keythread(a, r);
+        else if (op == "refhash") op_refhash(a, r);
         else if (op == "history") op_history(a, r);
         else if (op == "footprint") op_footprint(a, r);
         else if (op == "poison") op_poison(a, r);
